@@ -54,6 +54,12 @@ def make_server(spec, result):
         else:
             good = {"errors": [{"message": "bad request"}]}
         status = 200
+        if k == "status_once":
+            # a transient failure: only the first request of this process is answered with the error status
+            n_seen = sum(1 for r_ in result["http"] if "method" in r_)
+            if n_seen <= 1:
+                return fault["status"], {"content-type": "text/plain"}, b"try again"
+            k = "none"
         if k == "redirect":
             # the configured URL answers with a redirect that carries a Location; only that first answer is the peer's
             # reply to the configured request - whatever lives at the Location was never configured
